@@ -78,6 +78,14 @@ mono! {
     "(ll (arr 64 i8))" => LinkedList<[i8; 64]>,
     "(opt (arr 64 u16))" => Option<[u16; 64]>,
     "(tup u8 (arr 100 i32))" => (u8, [i32; 100]),
+    "(arr 127 u8)" => [u8; 127],
+    "(arr 128 u8)" => [u8; 128],
+    "(arr 255 u8)" => [u8; 255],
+    "(arr 256 u8)" => [u8; 256],
+    "(arr 1022 u8)" => [u8; 1022],
+    "(arr 1023 u8)" => [u8; 1023],
+    "(arr 1024 u8)" => [u8; 1024],
+    "(arr 1025 u8)" => [u8; 1025],
     "(ll u8)" => LinkedList<u8>,
     "(ll i8)" => LinkedList<i8>,
     "(box (arr 4 u8))" => Box<[u8; 4]>,
